@@ -699,3 +699,359 @@ Proof.
   exists (mkProd (aug_nt c) [NT (start_nt c)]). split; [|reflexivity].
   apply get_prod_g0_0. apply plain_ok_plain. exact Hok.
 Qed.
+
+(* ---- LALR: the same with the items' own follow sets as lookaheads --------------------------- *)
+Lemma indexed_In {X} (l : list X) i x : In (i, x) (indexed l) <-> nth_error l i = Some x.
+Proof.
+  unfold indexed.
+  assert (H : forall (l : list X) k i x, In (i, x) (combine (seq k (length l)) l) <->
+                                        (k <= i)%nat /\ nth_error l (i - k) = Some x).
+  { clear. induction l as [|y r IH]; intros k i x; cbn [length seq combine].
+    - split; [intros []|]. intros [_ H]. destruct (i - k)%nat; discriminate.
+    - cbn [In]. rewrite IH. split.
+      + intros [H|[H1 H2]].
+        * inversion H; subst. split; [lia|]. rewrite Nat.sub_diag. reflexivity.
+        * split; [lia|]. replace (i - k)%nat with (S (i - S k)) by lia. exact H2.
+      + intros [H1 H2]. destruct (Nat.eq_dec i k) as [->|Hne].
+        * rewrite Nat.sub_diag in H2. cbn in H2. inversion H2. left. reflexivity.
+        * right. split; [lia|]. replace (i - k)%nat with (S (i - S k)) in H2 by lia. exact H2. }
+  rewrite H, Nat.sub_0_r. split; [tauto|]. intros H1. split; [lia|exact H1].
+Qed.
+
+Lemma NoDup_map_inj_in {X Y} (f : X -> Y) l a b :
+  NoDup (map f l) -> In a l -> In b l -> f a = f b -> a = b.
+Proof.
+  induction l as [|x r IH]; intros Hnd Ha Hb E; [destruct Ha|].
+  cbn in Hnd. inversion Hnd as [|? ? Hnx Hnd']; subst.
+  destruct Ha as [->|Ha], Hb as [->|Hb]; [reflexivity| | |auto].
+  - exfalso. apply Hnx. rewrite E. apply in_map. exact Hb.
+  - exfalso. apply Hnx. rewrite <- E. apply in_map. exact Ha.
+Qed.
+
+Section BuiltLALR.
+  Variable c : tconf.
+  Hypothesis Hpl : plain c.
+  Hypothesis Hlr1 : tc_lr1 c = true.
+
+  Notation e := (tc_empty c).
+  Notation stop := (tc_stop c).
+  Notation ps := (tc_prods c).
+  Notation nnts := (tc_nnts c).
+  Notation g := (cfg_of c).
+  Notation g0 := (cfg_std c).
+  Notation aug := (aug_nt c).
+  Notation s0 := (start_nt c).
+
+  Variables (fs fo : fsets) (all : list mstate) (t : table).
+  Hypothesis Hfs : first_sets e (tc_ffuel c) nnts ps = Some fs.
+  Hypothesis Hinv : sinv ps e stop (length all) all.
+  Hypothesis Hpost : lalr_post ps e fs all.
+  Hypothesis Ht : reduce_all c fo all all = Some t.
+
+  Notation FT := (fst_tab_of e fs).
+  Notation NTb := (nul_tab_of e fs).
+  Notation FT0 := (fst_std c fs).
+  Notation NT0 := (nul_std c fs).
+  Notation ann := (ann c fo all).
+
+  Lemma litem_of_lalr it : litem_of c fo it = (it_p it, it_d it, it_f it).
+  Proof. unfold litem_of. rewrite Hlr1. reflexivity. Qed.
+
+  Lemma eff_L_lalr it : eff_L stop (litem_of c fo it) = if it_p it =? 0 then [stop] else it_f it.
+  Proof. rewrite litem_of_lalr. reflexivity. Qed.
+
+  Lemma has_litem_lalr s st it L : nth_error all s = Some st -> In it (ms_items st) ->
+    (forall x, In x L -> In x (eff_L stop (litem_of c fo it))) ->
+    has_litem ann stop s (it_p it) (it_d it) L = true.
+  Proof.
+    intros Hs Hit HL. unfold has_litem. rewrite (ann_of_nth c fo all s st Hs). apply existsb_exists.
+    exists (litem_of c fo it). split; [apply in_map; exact Hit|].
+    assert (E1 : li_p (litem_of c fo it) = it_p it) by reflexivity.
+    assert (E2 : li_d (litem_of c fo it) = it_d it) by reflexivity.
+    rewrite E1, E2, N.eqb_refl, Nat.eqb_refl. cbn [andb].
+    apply subset_spec. exact HL.
+  Qed.
+
+  Lemma has_litem_lalr' s st next p d L : nth_error all s = Some st -> In next (ms_items st) ->
+    pd next = (p, d) ->
+    (forall x, In x L -> In x (eff_L stop (litem_of c fo next))) ->
+    has_litem ann stop s p d L = true.
+  Proof.
+    intros Hs Hn Hpd HL. unfold pd in Hpd. inversion Hpd; subst p d. apply (has_litem_lalr s st next L Hs Hn HL).
+  Qed.
+
+  Lemma cell_reduce_lalr s st it a : nth_error all s = Some st -> In it (ms_items st) ->
+    it_d it = length (strip e (rhs_raw ps (it_p it))) -> In a (it_f it) ->
+    In (Reduce (it_p it)) (cell t s a).
+  Proof.
+    intros Hs Hit Hd Ha. rewrite (cell_eq c Hpl fo all t Hinv Ht s st a Hs). unfold unresolved.
+    destruct (raw_fold_adds (work_of g (ritems_of c fo st)) (ms_acts st) (it_p it) a) as (l' & H1 & H2).
+    - unfold work_of. apply in_flat_map. exists (mkRItem (it_p it) (it_d it) (it_f it)). split.
+      + unfold ritems_of. apply in_map_iff. exists it. split; [|exact Hit]. rewrite Hlr1. reflexivity.
+      + unfold at_end. cbn [ri_prod ri_dot ri_follow]. rewrite (rhs_of_g c Hpl), <- Hd, Nat.eqb_refl.
+        apply in_map_iff. exists a. auto.
+    - rewrite H1. exact H2.
+  Qed.
+
+  (* the follow set of an item flows into the advanced item of the target state *)
+  Lemma lalr_flow s st it tgt ts :
+    nth_error all s = Some st -> In it (ms_items st) -> In tgt (targets st) ->
+    nth_error all tgt = Some ts -> In (it_p it, S (it_d it)) (pds (ms_items ts)) ->
+    exists next, In next (ms_items ts) /\ pd next = (it_p it, S (it_d it)) /\
+                 fsub (it_f it) (it_f next).
+  Proof.
+    intros Hs Hit Htgt Hts Hin.
+    destruct (state_of c all Hinv s st Hs) as [[(Hnd & _ & _) _] _].
+    apply pds_In in Hin. destruct Hin as (next & Hnext & Hpd).
+    exists next. split; [exact Hnext|]. split; [exact Hpd|].
+    destruct (proj2 Hpost s st Hs tgt Htgt) as (ts' & Hts' & Hrec). rewrite Hts in Hts'.
+    inversion Hts'; subst ts'. apply In_nth_error in Hnext. destruct Hnext as (j & Hj).
+    assert (Hjk : In j (kernel_idx ps (ms_items ts))).
+    { unfold kernel_idx. apply in_map_iff. exists (j, next). split; [reflexivity|].
+      apply filter_In. split; [apply indexed_In; exact Hj|]. cbn [snd].
+      unfold is_kernel. unfold pd in Hpd. inversion Hpd as [[Ep0 Ed0]]. rewrite Ed0. reflexivity. }
+    destruct (Hrec ltac:(intros E; rewrite E in Hjk; destruct Hjk)) as (ts2 & Hts2 & Hall).
+    rewrite Hts in Hts2. inversion Hts2; subst ts2.
+    destruct (Hall j Hjk) as (next' & this & Hj' & Hfind & Hsub). rewrite Hj in Hj'.
+    inversion Hj'; subst next'.
+    (* [this] is the advanced copy of [it] *)
+    unfold find_inc in Hfind.
+    destruct (find _ (map (item_inc ps e) (ms_items st))) as [[x|]|] eqn:Ef; try discriminate.
+    inversion Hfind; subst x. apply find_some in Ef. destruct Ef as [Hin Hsame].
+    apply in_map_iff in Hin. destruct Hin as (it2 & Hinc & Hit2).
+    destruct (item_inc_spec ps e _ _ Hinc) as (Hp2 & Hd2 & Hf2).
+    unfold item_same in Hsame. apply andb_true_iff in Hsame. destruct Hsame as [E1 E2].
+    apply N.eqb_eq in E1. apply Nat.eqb_eq in E2. unfold pd in Hpd. inversion Hpd as [[Ep Ed]].
+    assert (Heq : it2 = it).
+    { apply (NoDup_map_inj_in pd (ms_items st)); [exact Hnd|exact Hit2|exact Hit|].
+      unfold pd. f_equal; [congruence|lia]. }
+    subst it2. intros y Hy. apply Hsub. rewrite Hf2. exact Hy.
+  Qed.
+
+  Lemma in_targets_shift st a tgt : assoc a (ms_acts st) = Some [Shift tgt] -> In tgt (targets st).
+  Proof.
+    intros H. apply assoc_In in H. unfold targets. apply in_or_app. right.
+    apply in_flat_map. exists (a, [Shift tgt]). split; [exact H|]. cbn. left. reflexivity.
+  Qed.
+
+  Lemma in_targets_goto st b tgt : assoc b (ms_gotos st) = Some tgt -> In tgt (targets st).
+  Proof.
+    intros H. apply assoc_In in H. unfold targets. apply in_or_app. left.
+    apply in_map_iff. exists (b, tgt). auto.
+  Qed.
+
+  (* what follows the nonterminal after the dot is in _new_item_follow *)
+  Lemma nif_loop_follow r f : (forall x, In x r -> In e (sym_first fs x)) ->
+    forall acc, fsub f (nif_loop e fs r acc f).
+  Proof.
+    induction r as [|x r IH]; intros Hr acc; cbn [nif_loop].
+    - intros y Hy. apply nunion_In. right. exact Hy.
+    - assert (E : nmem e (nunion acc (sym_first fs x)) = true).
+      { apply nmem_In. apply nunion_In. right. apply Hr. left. reflexivity. }
+      rewrite E. apply IH. intros z Hz. apply Hr. right. exact Hz.
+  Qed.
+
+  Lemma nul_seq_all r : nul_seq NTb (strip e r) = true -> forall x, In x r -> In e (sym_first fs x).
+  Proof.
+    intros H x Hx. destruct (is_EMPTY e x) eqn:Ex.
+    - destruct x as [a|a]; [|discriminate]. cbn in Ex. apply N.eqb_eq in Ex. subst a. left. reflexivity.
+    - unfold nul_seq in H. rewrite forallb_forall in H.
+      assert (Hin : In x (strip e r)) by (unfold strip; apply filter_In; rewrite Ex; auto).
+      specialize (H x Hin). rewrite (nul_sym_tab e fs x Ex) in H. apply nmem_In. exact H.
+  Qed.
+
+  Lemma after_nif it pr b :
+    it_p it <> 0 -> get_prod g0 (it_p it) = Some pr ->
+    nth_error (rhs pr) (it_d it) = Some (NT b) ->
+    forall y, In y (after FT0 NT0 stop pr (litem_of c fo it)) -> In y (new_item_follow ps e fs it).
+  Proof.
+    intros Hne Hp Hd y Hy. rewrite (get_prod_g0 c Hpl _ Hne) in Hp.
+    destruct (nth_error ps (N.to_nat (it_p it))) as [praw|] eqn:Eraw; [|discriminate].
+    cbn in Hp. inversion Hp; subst pr. cbn [rhs] in Hd.
+    assert (Hraw : rhs_raw ps (it_p it) = rhs praw) by (unfold rhs_raw; rewrite Eraw; reflexivity).
+    assert (Htr : trailing_emptyb e (rhs_raw ps (it_p it)) = true) by (apply (trailing_raw c Hpl)).
+    assert (Hdlt : (it_d it < rlen e (rhs_raw ps (it_p it)))%nat).
+    { rewrite Hraw. unfold rlen. change (filter _ (rhs praw)) with (strip e (rhs praw)).
+      apply nth_error_Some. congruence. }
+    unfold after in Hy. rewrite eff_L_lalr in Hy. rewrite litem_of_lalr in Hy.
+    unfold li_d in Hy. cbn [fst snd rhs] in Hy. apply N.eqb_neq in Hne. rewrite Hne in Hy.
+    destruct (seq_same c Hpl fs Hfs (skipn (S (it_d it)) (strip e (rhs praw)))) as [E1 E2].
+    { intros x Hx. apply (strip_no_aug c Hpl (it_p it)). rewrite Hraw. eapply In_skipn; exact Hx. }
+    rewrite E1, E2 in Hy. apply in_app_iff in Hy. destruct Hy as [Hy|Hy].
+    - assert (Hye : y <> e).
+      { eapply fst_seq_no_e; [|exact Hy]. intros x Hx. apply (strip_not_empty c (rhs praw)).
+        eapply In_skipn; exact Hx. }
+      apply (nif_spec ps e fs it y Htr Hdlt Hye). left. rewrite Hraw. exact Hy.
+    - destruct (nul_seq NTb (skipn (S (it_d it)) (strip e (rhs praw)))) eqn:En; [|destruct Hy].
+      unfold new_item_follow. apply nif_loop_follow; [|exact Hy].
+      apply nul_seq_all. rewrite (rslice_strip e _ Htr (S (it_d it))) by lia. rewrite Hraw. exact En.
+  Qed.
+
+  Lemma item_ok_lalr s st it :
+    nth_error all s = Some st -> In it (ms_items st) ->
+    item_ok g0 t ann FT0 NT0 stop s (litem_of c fo it) = true.
+  Proof.
+    intros Hs Hit. destruct (state_of c all Hinv s st Hs) as [[(Hnd & Hpred & Hvalid) _] [Hc0 Hedge]].
+    assert (Hin : In (it_p it, it_d it) (pds (ms_items st))) by (apply pds_In; exists it; auto).
+    pose proof (proj1 Hpost s st Hs it Hit) as Hclosed.
+    assert (E1 : li_p (litem_of c fo it) = it_p it) by reflexivity.
+    assert (E2 : li_d (litem_of c fo it) = it_d it) by reflexivity.
+    unfold item_ok. rewrite !E1, !E2. clear E1 E2.
+    destruct (N.eq_dec (it_p it) 0) as [Hp0|Hne].
+    - (* the augmented production *)
+      rewrite Hp0 in *. rewrite (get_prod_g0_0 c Hpl). cbn [rhs].
+      assert (Hraw0 : forall k, sym_at ps e 0 k = nth_error [NT s0; T stop] k).
+      { intros k. rewrite (sym_at_strip c Hpl), (rhs_raw_0 c Hpl), (strip_prod0 c Hpl). reflexivity. }
+      destruct (it_d it) as [|[|d]] eqn:Ed.
+      + cbn [nth_error]. pose proof (Hedge 0 0%nat (NT s0) Hin (Hraw0 0%nat)) as He.
+        cbn [edge] in He. destruct He as (tgt & st' & Hg & Ht' & Hin').
+        rewrite (goto_eq c Hpl fo all t Ht s st s0 Hs), Hg. apply andb_true_iff. split.
+        * apply pds_In in Hin'. destruct Hin' as (next & Hnext & Hpd).
+          apply (has_litem_lalr' tgt st' next _ _ _ Ht' Hnext Hpd). intros x Hx.
+          rewrite eff_L_lalr in *. unfold pd in Hpd. inversion Hpd as [[Ep Edn]].
+          rewrite Hp0 in Hx. rewrite Ep. exact Hx.
+        * apply forallb_forall. intros q Hq. rewrite (prods_of_g0 c Hpl) in Hq.
+          destruct (prods_of_nonzero c Hpl s0 q 0 0 Hq (Hraw0 0%nat)) as (Hq0 & Hql & _).
+          assert (Hsym : item_sym ps e it = Some (NT s0)).
+          { rewrite item_sym_at, Hp0, Ed. apply Hraw0. }
+          destruct (Hclosed s0 Hsym q Hq) as (j & Hj & Hpdj & Hfj).
+          apply (has_litem_lalr' s st j _ _ _ Hs Hj Hpdj). intros y Hy. rewrite eff_L_lalr.
+          unfold pd in Hpdj. inversion Hpdj as [[Epj Edj]].
+          rewrite Epj. apply N.eqb_neq in Hq0. rewrite Hq0. apply (Hfj eq_refl).
+          (* after = [stop] and _new_item_follow of (0, 0) is {STOP} *)
+          unfold after in Hy. rewrite eff_L_lalr, litem_of_lalr in Hy. unfold li_d in Hy.
+          cbn [fst snd rhs] in Hy. rewrite Hp0, Ed in Hy. cbn in Hy. destruct Hy as [<-|[]].
+          unfold new_item_follow. rewrite Hp0, Ed, (rhs_raw_0 c Hpl). cbn [rslice skipn nif_loop sym_first].
+          assert (En : nmem e (nunion [] [stop]) = false).
+          { apply nmem_false. intros H. apply nunion_In in H. destruct H as [[]|[H|[]]].
+            exact (pl_stop c Hpl H). }
+          rewrite En. apply nunion_In. right. left. reflexivity.
+      + cbn [nth_error]. rewrite N.eqb_refl.
+        pose proof (Hedge 0 1%nat (T stop) Hin (Hraw0 1%nat)) as He. cbn [edge] in He.
+        rewrite N.eqb_refl in He. apply existsb_action.
+        apply (cell_keeps c Hpl fo all t Hinv Ht s st stop [Accept] Accept Hs He). left. reflexivity.
+      + exfalso. destruct (Hpred 0 (S d) Hin) as (X & HX & Hns). rewrite Hraw0 in HX.
+        destruct d as [|d]; cbn in HX; [|destruct d; discriminate].
+        inversion HX; subst X. rewrite sym_eqb_refl in Hns. discriminate.
+    - pose proof (Hvalid _ _ Hin) as Hv.
+      destruct (nth_error ps (N.to_nat (it_p it))) as [praw|] eqn:Eraw; [|apply nth_error_None in Eraw; lia].
+      assert (Hp' : get_prod g0 (it_p it) = Some (mkProd (lhs praw) (strip e (rhs praw)))).
+      { rewrite (get_prod_g0 c Hpl _ Hne), Eraw. reflexivity. }
+      rewrite Hp'. cbn [rhs].
+      assert (Hraw : rhs_raw ps (it_p it) = rhs praw) by (unfold rhs_raw; rewrite Eraw; reflexivity).
+      assert (Hsym : sym_at ps e (it_p it) (it_d it) = nth_error (strip e (rhs praw)) (it_d it))
+        by (rewrite (sym_at_strip c Hpl), Hraw; reflexivity).
+      destruct (nth_error (strip e (rhs praw)) (it_d it)) as [[a|b]|] eqn:Ed.
+      + assert (Ha : a <> stop).
+        { intros ->. destruct (ps_shape c Hpl) as (p0 & rest & Eps & _ & _).
+          apply (pl_stop1 c Hpl praw).
+          - rewrite Eps. cbn [tl]. rewrite Eps in Eraw.
+            destruct (N.to_nat (it_p it)) as [|k] eqn:Ek; [lia|]. cbn in Eraw. eapply nth_error_In. exact Eraw.
+          - apply nth_error_In in Ed. unfold strip in Ed. apply filter_In in Ed. tauto. }
+        pose proof (Hedge _ _ (T a) Hin Hsym) as He. cbn [edge] in He.
+        apply N.eqb_neq in Ha. rewrite Ha in He. destruct He as (tgt & st' & Hact & Ht' & Hin').
+        apply existsb_exists. exists (Shift tgt). split.
+        * apply (cell_keeps c Hpl fo all t Hinv Ht s st a [Shift tgt] (Shift tgt) Hs Hact). left. reflexivity.
+        * destruct (lalr_flow s st it tgt st' Hs Hit (in_targets_shift st a tgt Hact) Ht' Hin')
+            as (next & Hnext & Hpd & Hsub).
+          apply (has_litem_lalr' tgt st' next _ _ _ Ht' Hnext Hpd). intros x Hx.
+          unfold pd in Hpd. inversion Hpd as [[Ep Edn]].
+          rewrite eff_L_lalr in *. rewrite Ep. destruct (it_p it =? 0); [exact Hx|apply Hsub; exact Hx].
+      + pose proof (Hedge _ _ (NT b) Hin Hsym) as He. cbn [edge] in He.
+        destruct He as (tgt & st' & Hg & Ht' & Hin').
+        rewrite (goto_eq c Hpl fo all t Ht s st b Hs), Hg. apply andb_true_iff. split.
+        * destruct (lalr_flow s st it tgt st' Hs Hit (in_targets_goto st b tgt Hg) Ht' Hin')
+            as (next & Hnext & Hpd & Hsub).
+          apply (has_litem_lalr' tgt st' next _ _ _ Ht' Hnext Hpd). intros x Hx.
+          unfold pd in Hpd. inversion Hpd as [[Ep Edn]].
+          rewrite eff_L_lalr in *. rewrite Ep. destruct (it_p it =? 0); [exact Hx|apply Hsub; exact Hx].
+        * apply forallb_forall. intros q Hq. rewrite (prods_of_g0 c Hpl) in Hq.
+          destruct (prods_of_nonzero c Hpl b q (it_d it) (it_p it) Hq Hsym) as (Hq0 & Hql & _).
+          destruct (Hclosed b Hsym q Hq) as (j & Hj & Hpdj & Hfj).
+          apply (has_litem_lalr' s st j _ _ _ Hs Hj Hpdj). intros y Hy. rewrite eff_L_lalr.
+          unfold pd in Hpdj. inversion Hpdj as [[Epj Edj]].
+          rewrite Epj. apply N.eqb_neq in Hq0. rewrite Hq0. apply (Hfj eq_refl).
+          eapply (after_nif it _ b Hne Hp'); [exact Ed|exact Hy].
+      + apply N.eqb_neq in Hne. rewrite Hne. rewrite eff_L_lalr, Hne.
+        apply forallb_forall. intros a Ha. apply existsb_action.
+        apply (cell_reduce_lalr s st it a Hs Hit); [|exact Ha].
+        rewrite Hraw. apply nth_error_None in Ed.
+        destruct (it_d it) as [|d] eqn:Edd; [lia|].
+        destruct (Hpred _ d Hin) as (X & HX & _). rewrite (sym_at_strip c Hpl), Hraw in HX.
+        assert (d < length (strip e (rhs praw)))%nat by (apply nth_error_Some; congruence). lia.
+  Qed.
+
+  Theorem table_complete_lalr : table_complete g0 t ann FT0 NT0 stop = true.
+  Proof.
+    unfold table_complete. rewrite (first_closed_std c Hpl fs Hfs), (pl_aug c Hpl). cbn [andb].
+    apply andb_true_iff. split; [apply andb_true_iff; split|].
+    - apply Nat.eqb_eq. unfold TableBuildProofs.ann. rewrite !map_length. symmetry.
+      exact (table_length c fo all t Ht).
+    - assert (Hgen : forall k l, (forall j its, nth_error l j = Some its ->
+                                    forall i, In i its -> item_ok g0 t ann FT0 NT0 stop (k + j) i = true) ->
+                                 states_complete g0 t ann FT0 NT0 stop k l = true).
+      { intros k l. revert k. induction l as [|its r IH]; intros k H; cbn [states_complete]; [reflexivity|].
+        apply andb_true_iff. split.
+        - apply forallb_forall. intros i Hi. specialize (H 0%nat its eq_refl i Hi).
+          rewrite Nat.add_0_r in H. exact H.
+        - apply IH. intros j its' Hj i Hi. specialize (H (S j) its' Hj i Hi).
+          replace (S k + j)%nat with (k + S j)%nat by lia. exact H. }
+      apply Hgen. intros j its Hj i Hi. cbn [Nat.add]. unfold TableBuildProofs.ann in Hj.
+      rewrite map_map, nth_error_map in Hj. destruct (nth_error all j) as [st|] eqn:Es; [|discriminate].
+      cbn in Hj. inversion Hj; subst its. apply in_map_iff in Hi. destruct Hi as (it & <- & Hit).
+      apply (item_ok_lalr j st it Es Hit).
+    - destruct (si_state0 _ _ _ _ _ Hinv) as (st0 & Hs0 & Hin0).
+      rewrite (ann_of_nth c fo all 0 st0 Hs0). apply existsb_exists.
+      apply pds_In in Hin0. destruct Hin0 as (it & Hit & Hpd). exists (litem_of c fo it).
+      split; [apply in_map; exact Hit|]. rewrite litem_of_lalr. unfold pd in Hpd. inversion Hpd as [[Ep Ed]].
+      unfold li_p, li_d. cbn [fst snd]. rewrite Ep, Ed. reflexivity.
+  Qed.
+End BuiltLALR.
+
+Theorem lalr_table_complete c b :
+  plain_ok c = true -> tc_lr1 c = true -> create_table c = BOk b ->
+  table_complete (cfg_std c) (tb_table b) (ann_of_built c b)
+                 (fst_std c (tb_first b)) (nul_std c (tb_first b)) (tc_stop c) = true.
+Proof.
+  intros Hok Hlr1 H. pose proof (plain_ok_plain c Hok) as Hpl. unfold create_table in H.
+  destruct (first_sets (tc_empty c) (tc_ffuel c) (tc_nnts c) (tc_prods c)) as [fs|] eqn:Hfs; [|discriminate].
+  destruct (find _ (nts_of (tc_nnts c))); [discriminate|].
+  destruct (follow_sets (tc_empty c) (tc_ffuel c) fs (tc_nnts c) (tc_prods c)) as [fo|] eqn:Hfo; [|discriminate].
+  apply bbind_ok in H. destruct H as (all & Hauto & H).
+  destruct (reduce_all c fo all all) as [t|] eqn:Ht; [|discriminate]. inversion H; subst b. clear H.
+  unfold automaton in Hauto. rewrite Hlr1, (pl_swap c Hpl) in Hauto.
+  apply bbind_ok in Hauto. destruct Hauto as (all0 & Hbuild & Hloop).
+  assert (Hne : tc_prods c <> []).
+  { destruct (ps_shape c Hpl) as (p0 & rest & Eps & _). rewrite Eps. discriminate. }
+  pose proof (build_loop_spec _ _ _ _ _ _ _ _ _ _ _ Hbuild (sinv_init _ _ _ Hne)) as Hinv0.
+  destruct (lalr_loop_spec _ _ _ _ _ _ _ Hloop) as (Hsame & Hpost).
+  { intros j s Hj. apply (si_done _ _ _ _ _ Hinv0 j s); [|exact Hj]. apply nth_error_Some. congruence. }
+  pose proof (sinv_same_pds _ _ _ _ _ Hsame Hinv0) as Hinv.
+  cbn [tb_table tb_first]. unfold ann_of_built. cbn [tb_items tb_follow].
+  exact (table_complete_lalr c Hpl Hlr1 fs fo all t Hfs Hinv Hpost Ht).
+Qed.
+
+(* both item-set types *)
+Theorem model_table_complete c b :
+  plain_ok c = true -> create_table c = BOk b ->
+  table_complete (cfg_std c) (tb_table b) (ann_of_built c b)
+                 (fst_std c (tb_first b)) (nul_std c (tb_first b)) (tc_stop c) = true.
+Proof.
+  intros Hok H. destruct (tc_lr1 c) eqn:E.
+  - apply lalr_table_complete; assumption.
+  - apply slr_table_complete; assumption.
+Qed.
+
+Theorem model_table_accepts c b :
+  plain_ok c = true -> create_table c = BOk b ->
+  forall (d tr : tree),
+    wf_tree (cfg_std c) tr -> root_sym (cfg_std c) tr = Some (NT (start_nt c)) ->
+    exists st, lsteps (cfg_std c) (tb_table b) (tc_stop c) ([(O, d)], leaves tr) (st, []) /\
+               laccepts (tb_table b) (tc_stop c) st tr.
+Proof.
+  intros Hok H d tr Hwf Hroot.
+  pose proof (model_table_complete c b Hok H) as Htc.
+  apply (lr_machine_complete _ _ _ _ _ _ Htc (start_nt c) d tr); [|exact Hwf|exact Hroot].
+  exists (mkProd (aug_nt c) [NT (start_nt c)]). split; [|reflexivity].
+  apply get_prod_g0_0. apply plain_ok_plain. exact Hok.
+Qed.
